@@ -145,6 +145,14 @@ func nontrivialBytes(c *vrt.Ctx, accepted bool, in []byte, deadAt int) {
 	}
 }
 
+// exact copies d into a slice whose capacity is its length: a read past the end of the input
+// is then a read past the end of the slice (append would round the capacity up and hide it).
+func exact(d []byte) []byte {
+	b := make([]byte, len(d))
+	copy(b, d)
+	return b
+}
+
 // veteranCase: the veteran instances cost a history of calls each, so every fourth input (by
 // content) goes through them.
 func veteranCase(d []byte) bool {
@@ -158,7 +166,7 @@ func runJSON(cs Case, c *vrt.Ctx) {
 	in := q(d)
 	c.SetKey(append([]byte("json\x00"), d...))
 	_, _, dead := ref.ScanFast(d)
-	cp := func() []byte { return append([]byte(nil), d...) }
+	cp := func() []byte { return exact(d) }
 	rd := func() *chunked { return &chunked{bytes.NewReader(cp()), cs.Chunk} }
 	acc := callErr(c, "oj.Parse", in, func() error { _, err := oj.Parse(cp()); return err })
 	callErr(c, "oj.Parser.ParseReader", in, func() error { p := oj.Parser{}; _, err := p.ParseReader(rd()); return err })
@@ -200,7 +208,7 @@ func runSEN(cs Case, c *vrt.Ctx) {
 	d := cs.Input
 	in := q(d)
 	c.SetKey(append([]byte("sen\x00"), d...))
-	cp := func() []byte { return append([]byte(nil), d...) }
+	cp := func() []byte { return exact(d) }
 	rd := func() *chunked { return &chunked{bytes.NewReader(cp()), cs.Chunk} }
 	acc := callErr(c, "sen.Parse", in, func() error { _, err := sen.Parse(cp()); return err })
 	callErr(c, "sen.Parser.Parse(fresh)", in, func() error { p := sen.Parser{}; _, err := p.Parse(cp()); return err })
@@ -479,6 +487,21 @@ func drawCase(t *rapid.T) Case {
 				}
 			}
 			return Case{Target: rapid.SampledFrom([]string{"json", "json", "sen"}).Draw(t, "souptarget"), Input: text, Chunk: rapid.SampledFrom([]int{0, 0, 1, 2}).Draw(t, "chunk")}
+		}
+		switch rapid.IntRange(0, 7).Draw(t, "edge") {
+		case 0:
+			// the input ends inside a token: every proper prefix of a literal, number or string
+			// after a generated lead-in (the fast paths look a fixed number of bytes ahead)
+			tok := rapid.SampledFrom([]string{"true", "false", "null", `"string \u00e9 \n"`, "-123.456e+78", "12345678901234567890123"}).Draw(t, "endtok")
+			lead := rapid.SampledFrom([]string{"", " ", "[", "[1,", `{"a":`, `{"a":[true, `, "\n\n"}).Draw(t, "lead")
+			k := rapid.IntRange(1, len(tok)).Draw(t, "endk")
+			return Case{Target: rapid.SampledFrom([]string{"json", "json", "sen"}).Draw(t, "endtarget"), Input: []byte(lead + tok[:k]), Chunk: rapid.SampledFrom([]int{0, 0, 1, 2, 3}).Draw(t, "chunk")}
+		case 1:
+			// a token astride the 4096 byte read buffer of the reader entry points
+			tok := rapid.SampledFrom([]string{"true", "false", "null", `"string \u00e9 \n"`, "-123.456e+78", `{"key":1}`, "[[]]"}).Draw(t, "stradtok")
+			inside := rapid.IntRange(1, len(tok)-1).Draw(t, "inside")
+			tail := rapid.SampledFrom([]string{"]", ",1]", " ]", ""}).Draw(t, "stradtail")
+			return Case{Target: rapid.SampledFrom([]string{"json", "json", "sen"}).Draw(t, "stradtarget"), Input: []byte("[" + strings.Repeat(" ", 4096-inside-1) + tok + tail), Chunk: 0}
 		}
 		text := gx.JSONText(t, gx.DefaultText)
 		if rapid.IntRange(0, 4).Draw(t, "mut") != 0 {
